@@ -3,12 +3,14 @@ use crate::fw::*;
 use serde_json::Value;
 
 pub mod c02;
+pub mod c09;
 pub mod mapmodel;
 
 pub fn run(id: &str, tier: Tier) -> i32 {
     match id {
         "C01" | "C03" | "C04" => mapmodel::run(id, tier),
         "C02" => c02::run(tier),
+        "C09" => c09::run(tier),
         _ => {
             eprintln!("unknown property {}", id);
             2
@@ -20,6 +22,7 @@ pub fn recheck(id: &str, case: &Value) -> Vec<String> {
     match id {
         "C01" | "C03" | "C04" => mapmodel::recheck(id, case),
         "C02" => c02::recheck(case),
+        "C09" => c09::recheck(case),
         _ => vec![],
     }
 }
